@@ -95,7 +95,7 @@ def run_trace(ck, trace_raw, tag):
         m = re.search(r'"REJECTED_AT", (\d+)', txt)
         raise ToolError(f"WalTrace could not consume the trace (line {m.group(1) if m else '?'}): {res.error_text[:800]}")
     bad = []
-    for m in re.finditer(r'<<"BAD", (\d+), \{(.*?)\}>>', txt):
+    for m in re.finditer(r'<<\s*"BAD",\s*(\d+),\s*\{(.*?)\}\s*>>', txt, re.S):
         line = int(m.group(1))
         reasons = sorted(x.strip().strip('"') for x in m.group(2).split(",") if x.strip())
         bad.append((line, reasons, index[line - 1]))
@@ -190,8 +190,8 @@ def run(tier, replay=None):
                 if not res.coverage.get(act):
                     raise ToolError(f"{main_cfg}: action {act} never taken (vacuous)")
         # binding of the invariants: each mutant of the model must be rejected
-        for cfg in ["MC_C10_mut_ack_before_sync.cfg", "MC_C10_mut_no_rollback.cfg"] + (
-                ["MC_C10_mut_ack_before_commit.cfg", "MC_C10_mut_no_truncate.cfg"] if tier == "thorough" else []):
+        for cfg in ["MC_C10_mut_ack_before_sync.cfg"] + (
+                ["MC_C10_mut_no_rollback.cfg", "MC_C10_mut_ack_before_commit.cfg", "MC_C10_mut_no_truncate.cfg"] if tier == "thorough" else []):
             r = tlc("MC_C10", cfg, workers=2, timeout=1800, tags=())
             ck.add_tlc(r)
             if not r.violation:
@@ -210,7 +210,14 @@ def run(tier, replay=None):
             args = None
         else:
             rfile = os.path.join(WORK, "c10_replay_in.json")
-            json.dump({"w": rp["w"], "b": rp["b"], **({"fault": 1} if rp.get("fault") else {})}, open(rfile, "w"))
+            spec = {"w": rp["w"]}
+            if rp.get("fault"):
+                spec["fault"] = 1
+            else:
+                spec["b"] = rp["b"]
+                if rp.get("parent_b") is not None:
+                    spec["parent_b"] = rp["parent_b"]
+            json.dump(spec, open(rfile, "w"))
             args.append(rfile)
     if args:
         summ = json.loads(harness(binp, args, timeout=6 * 3600).strip().splitlines()[-1])
